@@ -74,11 +74,11 @@ P = {
 ADD = {
  "C01": ("identifier-resolution environment rule; declaration-binding step order; relational-operator operand order and LeftFirst flag; enumeration-under-mutation rule",
          "Identifier resolution starts at the LexicalEnvironment at every call site. Function entry binds parameters, then the arguments object, then function declarations, then vars (ES5 10.5); each relational arm passes its operands in the prescribed order with the prescribed LeftFirst flag; no writer shifts the property-order list in place under a running enumeration."),
- "C02": ("recover-handler analysis of the API boundary; nil function-field contradiction rule; typestate of the accessor placeholder; unchecked-assertion census extended to parser/ast/file; typed-nil census; constant-index guard rule in the parser; prototype payload agreement",
-         "The code that turns a caught value into an error makes no call that can throw again; no function field some literal leaves nil is called without a nil test. The placeholder object nilGetSetObject never reaches the property table; no unchecked type assertion in the parser packages can fail on script-supplied text (Function constructor). Every constant index or slice bound on parser input is dominated by a length test that covers it; the internal value of each primitive-wrapper / Date / RegExp prototype has the Go type its constructor stores."),
+ "C02": ("recursion-depth census (parser cycles need a depth guard; cycles driven by script-built values must read the stack limit); recover-handler analysis of the API boundary; nil function-field contradiction rule; typestate of the accessor placeholder; unchecked-assertion census extended to parser/ast/file; typed-nil census; constant-index guard rule in the parser; prototype payload agreement",
+         "Every recursion that does not pass through a script call is bounded by a Go type, a constant or the compiled tree, or consults the stack limit itself (the parser's own unbounded nesting is a known finding). The code that turns a caught value into an error makes no call that can throw again; no function field some literal leaves nil is called without a nil test. The placeholder object nilGetSetObject never reaches the property table; no unchecked type assertion in the parser packages can fail on script-supplied text (Function constructor). Every constant index or slice bound on parser input is dominated by a length test that covers it; the internal value of each primitive-wrapper / Date / RegExp prototype has the Go type its constructor stores."),
  "C03": ("interprocedural typestate analysis of the allowIn flag; restricted-production rule; dead flag-store rule (also per call site); member-suffix ladder rule; Idx/offset unit rule",
          "After return/break/continue/throw and before a postfix ++/-- the operand is taken only when the scanner saw no line terminator (7.9.1). Every place the grammar says Expression/AssignmentExpression is entered only with allowIn=true, the for initialiser only with false, and every writer of the flag restores it; no store to a scanner/parser flag is overwritten before it can be read."),
- "C04": ("totality proof of the span methods (every parser store into an indexed slice field proved non-empty); position-field reader/writer agreement; typed-nil census; early-error rule for regular expression literals; constant-index guard rule",
+ "C04": ("recursion-depth rule for the parser and the pattern translator; totality proof of the span methods (every parser store into an indexed slice field proved non-empty); position-field reader/writer agreement; typed-nil census; early-error rule for regular expression literals; constant-index guard rule",
          "Idx0/Idx1 of every node type are total on the trees the parser builds and every position field they read is set at every construction site; no possibly-nil pointer is converted to a node interface. A regular expression literal is translated and compiled at parse time and both errors are reported; constant indexing of parser input is length-guarded."),
  "C05": ("abstract execution of the == case analysis over all 36 kind pairs; typeof table; finite evaluation of the relational outcome mapping; argument-conversion table; sibling equality-kind table; positive/negative corpus for the StringNumericLiteral guard",
          "For every ordered pair of kinds the case analysis of == reaches exactly the outcomes the ten steps of 11.9.3 reach; typeof maps each kind to the string of table 20. The four relational operators map the three-valued comparison outcome as ES5 11.8.1-4 prescribe (undefined -> false); sameValue / strict equality / == agree on the six kinds and only SameValue distinguishes the zeros; the ToNumber grammar guard accepts every ES5 form and rejects every Go-only form."),
